@@ -352,7 +352,65 @@ def c17_queries(tier):
                ['underscore-accepted'], n=N + 3)]
 
 
+def uninit_query(prefix, backend='idn2'):
+    return Query('%s-uninit-eav_t-%s' % (prefix, backend), 'c_uninit.c', repo=['partial/%s/eav.c' % backend, 'src/eav.c'],
+                 unwind=CB_UNW, leak=True, idn=None if backend == 'idn2' else backend,
+                 instrument=[['--branch', 'vf_branch']], replay=False,
+                 covers=['end', 'branches-recorded', 'accepted'],
+                 bounds={'eav_t initial bytes': 'two independent arbitrary images', 'settings': 'any int / bool', 'callback rc': 'all documented codes'},
+                 functions=API_FN, note='self-composition + goto-instrument --branch: branch traces of the two runs must be equal; '
+                                        'not natively replayable (the instrumentation exists only in the goto program)')
+
+
+def c06_queries(tier):
+    qs = []
+    T = ['-DVF_TAIL_ALIGN']
+    N = 6 if tier == 'quick' else 8
+    for m, name, src, fn in MODES:
+        srcs = [src] + (['src/utf8_decode.c'] if m == 3 else [])
+        for tail in (0, 1):
+            qs.append(Query('C06-local-%s-%s-N%d' % (name, 'tail' if tail else 'head', N), 'a_local.c', repo=srcs,
+                            defs=D(VF_N=N, VF_CTX=2, VF_MODE=m) + (T if tail else []), unwind=N + 4, covers=['end', 'rejected'],
+                            bounds={'max_len': N, 'ctx_bytes': 2, 'object': 'terminator is the last byte' if tail else 'first byte is the first byte'},
+                            functions=[fn], timeout=3000))
+    Nd = 9 if tier == 'quick' else 12
+    qs.append(Query('C06-domain-tail-N%d' % Nd, 'a_domain.c', repo=['src/is_ascii_domain.c'], defs=D(VF_N=Nd) + T, unwind=Nd + 3,
+                    covers=['end'], bounds={'max_len': Nd, 'object': 'terminator is the last byte'}, functions=['is_ascii_domain'], timeout=3000))
+    qs.append(Query('C06-special-tail-N11', 'a_special.c', repo=['src/is_special_domain.c'], defs=D(VF_N=11) + T, unwind=14,
+                    covers=['end'], bounds={'max_len': 11, 'object': 'terminator is the last byte'}, functions=['is_special_domain'], timeout=3000))
+    for fn, n in ((4, 9), (6, 8), (0, 8)):
+        q = ip_query('C06', fn, n, 1, [])
+        q.name += '-tail'
+        q.defs += T
+        q.bounds['object'] = 'terminator is the last byte'
+        qs.append(q)
+    qs.append(tld_query('C06', 2, 8))
+    Ne = 14 if tier == 'quick' else 24
+    for m in range(4):
+        q = email_query('C06tail', m, Ne, extra_defs=T, covers=['end', 'accepted-hostname'])
+        q.bounds['object'] = 'terminator is the last byte of the address object'
+        qs.append(q)
+        qs.append(email_query('C06extra', m, Ne, extra_defs=['-DEAV_EXTRA'], covers=['end', 'extra-domain']))
+    qs.append(utf8dom_query('C06', 8, 8))
+    qs.append(single_query('C06'))
+    qs.append(history_query('C06', 3 if tier == 'quick' else 5, timeout=3000,
+                            covers=['end', 'two-validations']))
+    qs.append(uninit_query('C06'))
+    qs.append(tldtable_query('C06'))
+    return qs
+
+
 PROPS = {
+    'C06': {
+        'queries': c06_queries,
+        'level': 'model_checking',
+        'outside': ['inputs longer than the per-query bounds (64 KiB inputs, lengths >= 2^31 where utf8_decode_init(int) truncates)',
+                    'libidn2 / glibc internals', 'allocation failure (excluded by the property wording)',
+                    'the eav CLI is covered by C20'],
+        'explanation': 'every harness runs with pointer, bounds, overflow, shift, division and leak checks and unwinding assertions; '
+                       'objects are sized so that a read before the first byte (head) or after the terminator (tail) is out of bounds; '
+                       'abort()/assert() are failures; loop bounds n+const under --unwinding-assertions give the linear-time claim',
+    },
     'C17': {
         'queries': c17_queries, 'pre': pre.c17_pre,
         'level': 'model_checking',
